@@ -166,6 +166,49 @@ fn check_generator(g: &G1, deep: bool) -> (Vec<(String, String, String)>, BTreeM
             }
         }
     }
+    // (b') histories with word reads: everything handed out comes out of the one canonical byte
+    //      stream of this seed, in order. Word reads may skip a few bytes (alignment, end of a
+    //      block) and may be little- or big-endian views; nothing may come from anywhere else
+    //      (a read past the end of the buffer hands out whatever lies behind it).
+    if !fill_only {
+        let words = g.ops.len() - g.ops.iter().filter(|o| matches!(o, GOp::Fill(_))).count();
+        let canon = run_history(&g.seed, &[GOp::Fill(total + 16 * words + 64)]);
+        let mut gen = BlakeRNG::from_seed(PRNGSeed(g.seed));
+        let (mut lo, mut hi) = (0usize, 0usize);
+        for (k, op) in g.ops.iter().enumerate() {
+            let (out, word): (Vec<u8>, bool) = match op {
+                GOp::Fill(n) => {
+                    let mut v = vec![0u8; *n];
+                    gen.fill_bytes(&mut v);
+                    (v, false)
+                }
+                GOp::U32 => (gen.next_u32().to_le_bytes().to_vec(), true),
+                GOp::U64 => (gen.next_u64().to_le_bytes().to_vec(), true),
+            };
+            let n = out.len();
+            if n == 0 {
+                continue;
+            }
+            let rev: Vec<u8> = out.iter().rev().cloned().collect();
+            let mut cands = (lo..=hi + 8).filter(|&p| p + n <= canon.len() && (canon[p..p + n] == out[..] || (word && canon[p..p + n] == rev[..])));
+            match cands.next() {
+                None => {
+                    bad.push((
+                        "generator/output-not-from-stream".into(),
+                        "output-not-from-stream".into(),
+                        format!("call {} ({:?}) of the history {:?}.. returned {} bytes [{}] that do not occur in the generator's byte stream between offsets {} and {}", k, op, &g.ops[..g.ops.len().min(8)], n, util::excerpt(&out, 16), lo, hi + 8 + n),
+                    ));
+                    break;
+                }
+                Some(first) => {
+                    let last = cands.last().unwrap_or(first);
+                    lo = first + n;
+                    hi = last + n;
+                }
+            }
+        }
+        *probes.entry("probe.mixed_history_checked_against_stream").or_insert(0) += 1;
+    }
     // (c) no repeated 16-byte aligned window; seeds differing in one bit give different first blocks
     let span = if deep { 4 * 1024 * 1024 } else { 96 * 1024 };
     let long = run_history(&g.seed, &[GOp::Fill(span)]);
